@@ -45,7 +45,7 @@ def rkey(k):
 def gen_cfg(rng, family=None):
     """Small configurations: 2-4 threads, <= 4 ops each between connect and disconnect."""
     family = family or rng.choice(["pair", "pair", "pair", "paircb", "paircb", "twosock", "threenode",
-                                   "reinc", "reinc", "lone", "shared"])
+                                   "reinc", "reinc", "lone", "shared", "reconn", "reconn", "reconn"])
     mid = [0]
 
     def fresh():
@@ -87,6 +87,20 @@ def gen_cfg(rng, family=None):
                dict(key=[1, 0, 0], cb=cb, ops=script(rng.randint(0, 1), 0 if cb else rng.randint(0, 1), 1.0,
                                                       rng.random() < 0.8)),
                dict(key=[0, 1, 0], cb=False, ops=script(rng.randint(0, 1), 0, 0, rng.random() < 0.3))]
+    elif family == "reconn":
+        # a receiver (mostly in callback mode) that stays connected, and a sender that disconnects,
+        # reconnects with the same socket id (same thread, or a later endpoint in another thread) and sends again
+        cb = rng.random() < 0.75
+        n1, n2 = rng.randint(0, 2), rng.randint(1, 2)
+        first = [["connect"]] + [["send", fresh()] for _ in range(n1)] + [["disconnect"]]
+        second = [["connect"]] + [["send", fresh()] for _ in range(n2)] + ([["disconnect"]] if rng.random() < 0.3 else [])
+        nrecv = 0 if cb else rng.randint(0, n1 + n2)
+        recv_ops = [["recvnb"] if rng.random() < 0.4 else ["recv"] for _ in range(nrecv)]
+        rcv = dict(key=[1, 0, 0], cb=cb, ops=[["connect"]] + recv_ops + ([["disconnect"]] if rng.random() < 0.15 else []))
+        if rng.random() < 0.6:
+            cfg = [rcv, dict(key=[0, 1, 0], cb=False, ops=first + second)]
+        else:
+            cfg = [rcv, dict(key=[0, 1, 0], cb=False, ops=first), dict(key=[0, 1, 0], cb=False, ops=second)]
     elif family == "lone":
         cfg = pair(0, False, False, budget=2) + [dict(key=[2, 0, 0], cb=False, ops=script(1, 0, 0, False))]
     else:  # shared: two threads use endpoints with one and the same key (two receivers on one queue)
@@ -190,6 +204,12 @@ def oracle(run, cfg):
     for e in run.errors:
         bad.append(("harness-error", e))
     n = len(cfg)
+    # an operation must end with its documented outcome: ok / message / ConnectionError / "nothing to
+    # receive" for a non-blocking receive; never IndexError, KeyError or another RuntimeError
+    for t in range(n):
+        for z in run.results[t]:
+            if z[1] in ("indexerr", "keyerr", "runtime"):
+                bad.append(("op-crashed", f"thread {t} {cfg[t]['key']} op {z[0]} {cfg[t]['ops'][z[0]]} raised {z[1]}"))
     by_key = {}
     for t, th in enumerate(cfg):
         by_key.setdefault(tuple(th["key"]), []).append(t)
@@ -235,6 +255,14 @@ def oracle(run, cfg):
             kind = cfg[r]["ops"][i][0]
             if kind == "recv" and left:
                 bad.append(("blocked", f"thread {r} blocked in recv with {left} queued"))
+    # a callback receiver that never disconnects must be handed every message: nothing may sit in its queue
+    for k, rts in by_key.items():
+        if len(rts) != 1:
+            continue
+        th = cfg[rts[0]]
+        if th["cb"] and not any(o[0] in ("recv", "recvnb", "disconnect") for o in th["ops"]) and final_q.get(k):
+            bad.append(("stranded", f"callback receiver {list(k)} (thread {rts[0]}) never disconnected, its callback got "
+                                    f"{[int(x) for x in run.storage[rts[0]]]} but {final_q[k]} sit undelivered in the hub queue"))
     for t, th in enumerate(cfg):
         if run.status[t] == "blocked" and run.end_reason == "quiescent":
             i = res[t][-1][0]
